@@ -22,7 +22,10 @@ with spec/Trace_Pipeline.tla:
     oracle:StatsByteSize       shown size not within half a unit of its last
                                digit of prod(size) * itemsize * channels
                                ( = length of the decoded scale * itemsize)
-    oracle:StatsTotals         totals /= sums
+    oracle:StatsTotals         totals /= sums (of the reported per-line counts, of
+                               the chunks on disk, of the true sizes); an info
+                               may list several chunk_sizes per scale: one line
+                               per chunking, every chunking counts
 
 (the other clauses of Trace_Pipeline are evaluated as well - a violation of any
 of them is reported under the clause's own name).  Violations are registered
@@ -126,6 +129,80 @@ def _programs(ctx):
                       "explicit": rng.random() < 0.5, "seed": rng.randrange(1 << 30),
                       "docs_shflag": rng.random() < 0.5, "shard_enc": rng.choice(["gzip", "raw"]),
                       "slice_format": ["png", "tiff"][k % 2]})
+    progs += _boundary_programs(ctx) + _multi_chunking_programs(ctx)
+    return progs
+
+
+def _prog(rng, vol, cmds, **kw):
+    p = {"vol": vol, "cmds": cmds,
+         "lay": {"A": rng.choice(list(pd.LAYOUTS)), "B": rng.choice(list(pd.LAYOUTS))},
+         "explicit": rng.random() < 0.5, "seed": rng.randrange(1 << 30),
+         "docs_shflag": rng.random() < 0.5, "shard_enc": rng.choice(["gzip", "raw"])}
+    p.update(kw)
+    return p
+
+
+def _vol(shape, dtype, voxel, tgt=64, **kw):
+    v = {"shape": shape, "dtype": dtype, "voxel": voxel, "kind": kw.pop("kind", "noise"), "perfect": True}
+    v.update(kw)
+    v["nall"] = min(3, pd.n_levels(shape, voxel, tgt))
+    return v
+
+
+def _boundary_programs(ctx):
+    """Volumes whose size along an axis is 1, n*chunk + 1, n*chunk, n*chunk - 1
+    (each axis in turn): the chunk counts of the report against what
+    volume-to-precomputed / compute-scales / the all-in-one command wrote."""
+    rng = ctx.rng
+    iso = [1.0, 1.0, 1.0]
+    shapes = [([65, 3, 2], 64, False), ([3, 65, 2], 64, False), ([2, 3, 65], 64, False),
+              ([129, 2, 1], 64, False), ([1, 5, 4], 64, False), ([5, 1, 4], 64, True),
+              ([5, 4, 1], 64, False), ([64, 3, 2], 64, False), ([2, 63, 3], 64, False),
+              ([3, 2, 128], 64, True), ([2, 127, 2], 64, False), ([2, 2, 129], 64, True),
+              ([33, 20, 17], 16, False), ([16, 17, 33], 16, False), ([17, 1, 9], 8, False)]
+    if not ctx.quick:
+        for _ in range(40):
+            t = rng.choice([64, 16, 8])
+            n = [rng.choice([1, t - 1, t, t + 1, 2 * t, 2 * t + 1]) if rng.random() < 0.5
+                 else rng.randint(1, 5) for _ in range(3)]
+            if max(n) > 5 and pd.n_levels(n, iso, t) <= 3:
+                shapes.append((n, t, rng.random() < 0.3))
+    progs = []
+    for k, (shape, tgt, sharded) in enumerate(shapes):
+        vol = _vol(shape, ["uint8", "uint16"][k % 2], iso, tgt)
+        cmds = [C("GenInfo", "A", sh="s110" if sharded else "nosh"),
+                C("GenScales", "A", src="A", type="image", enc="raw", max="all"),
+                C("Vol", "A"), C("Stats", "A"), C("Compute", "A", m="auto"), C("Stats", "A")]
+        if tgt == 64:      # the all-in-one command has no chunk size option
+            cmds += [C("AllInOne", "B", type="image", enc="raw", m="auto"), C("Stats", "B")]
+        progs.append(_prog(rng, vol, cmds, tgt=None if tgt == 64 else tgt))
+    return progs
+
+
+def _multi_chunking_programs(ctx):
+    """Infos that list SEVERAL chunk_sizes per scale (allowed by the format): one
+    report line per chunking, totals over all of them - on the info alone (hand
+    edit) and on datasets in which every chunking is stored (re-tiled source,
+    convert-chunks destination)."""
+    rng = ctx.rng
+    iso = [1.0, 1.0, 1.0]
+    progs = []
+    specs = [([24, 20, 18], 8, "cs4", "uint8"), ([40, 12, 9], 16, "cs8", "uint16"),
+             ([20, 20, 12], 8, "cs4x2x8,4", "uint8"), ([30, 9, 7], 16, "cs8,4,2x4x4", "uint32")]
+    if not ctx.quick:
+        specs += [([rng.randint(17, 40), rng.randint(5, 20), rng.randint(3, 12)], rng.choice([8, 16]),
+                   rng.choice(["cs4", "cs4,2", "cs8x4x2", "cs2x2x4,4"]), rng.choice(["uint8", "uint16"]))
+                  for _ in range(12)]
+    for k, (shape, tgt, cs, dt) in enumerate(specs):
+        vol = _vol(shape, dt, iso, tgt)
+        gen = [C("GenInfo", "A", sh="nosh"), C("GenScales", "A", src="A", type="image", enc="raw", max="all")]
+        # the info alone, edited by hand
+        progs.append(_prog(rng, vol, gen + [C("Edit", "A", m=cs, sh="keep"), C("Stats", "A")], tgt=tgt))
+        # every chunking stored: re-tiled source, then a converted copy
+        progs.append(_prog(rng, vol, gen + [C("Vol", "A"), C("Compute", "A", m="auto"),
+                                            C("Rechunk", "A", m=cs), C("Stats", "A"),
+                                            C("Convert", "B", src="A", copy="copy"), C("Stats", "B")],
+                           tgt=tgt))
     return progs
 
 
